@@ -53,4 +53,48 @@ pub assume_specification<L: rowan::Language> [rowan::SyntaxToken::<L>::kind] (t:
 /// derived PartialEq on the field-less enum SyntaxKind is structural
 pub assume_specification [<SyntaxKind as core::cmp::PartialEq>::eq] (a: &SyntaxKind, b: &SyntaxKind) -> (r: bool) ensures r == (*a == *b);
 }
+
+// ---------------------------------------------------------------- hover::exec: which tree the doc comment is read from (ASSUMED database model)
+pub use std::sync::Arc;
+pub use ide::file_system::{FileId, FileRange, FilePosition};
+pub use ide::index::{Index, IndexDatabase};
+verus!{
+#[verifier::external_type_specification] pub struct ExFileId(FileId);
+#[verifier::external_type_specification] pub struct ExFileRange(FileRange);
+#[verifier::external_type_specification] pub struct ExFilePosition(FilePosition);
+#[verifier::external_type_specification] #[verifier::external_body] pub struct ExTextSize(TextSize);
+#[verifier::external_type_specification] #[verifier::external_body] pub struct ExSymbolMap(ide::symbol_map::SymbolMap);
+#[verifier::external_type_specification] #[verifier::external_body] pub struct ExSourceRoot(ide::file_system::SourceRoot);
+#[verifier::external_type_specification] #[verifier::external_body] pub struct ExIndex(Index);
+#[verifier::external_type_specification] #[verifier::external_body] pub struct ExParse(syntax::Parse);
+#[verifier::external_type_specification] #[verifier::external_body] pub struct ExLineIndex(ide::line_index::LineIndex);
+#[verifier::external_type_specification] #[verifier::external_body] pub struct ExIncludeId(ide::file_system::IncludeId);
+#[verifier::external_type_specification] #[verifier::external_body] pub struct ExIDS(ide::index::IndexDatabaseStorage);
+#[verifier::external_type_specification] #[verifier::external_body] pub struct ExSDS(ide::db::SourceDatabaseStorage);
+#[verifier::external_trait_specification] pub trait ExQueryGroup: Sized { type ExternalTraitSpecificationFor: salsa::plumbing::QueryGroup; }
+#[verifier::external_trait_specification] pub trait ExDatabaseOps { type ExternalTraitSpecificationFor: salsa::plumbing::DatabaseOps; }
+#[verifier::external_trait_specification] pub trait ExSalsaDatabase: salsa::plumbing::DatabaseOps { type ExternalTraitSpecificationFor: salsa::Database; }
+#[verifier::external_trait_specification] pub trait ExHasQueryGroup<G: salsa::plumbing::QueryGroup>: salsa::Database { type ExternalTraitSpecificationFor: salsa::plumbing::HasQueryGroup<G>; }
+/// the tree of a file in this revision / the tree a parse result holds / the symbol map of this revision (functions of the revision; uninterpreted)
+pub uninterp spec fn tree_of<D: ?Sized>(db: &D, f: FileId) -> SyntaxNode;
+pub uninterp spec fn parse_tree(p: &syntax::Parse) -> SyntaxNode;
+pub uninterp spec fn db_sm<D: ?Sized>(db: &D) -> ide::symbol_map::SymbolMap;
+pub uninterp spec fn idx_sm(i: &Index) -> ide::symbol_map::SymbolMap;
+/// where the symbol found at a position is declared (result of extract_symbol_signature; not constrained here)
+pub uninterp spec fn sig_loc(sm: &ide::symbol_map::SymbolMap, pos: FilePosition) -> FileRange;
+/// the property's doc text for the declaration at `range` of the tree `root`
+pub open spec fn doc_text(root: &SyntaxNode, range: TextRange) -> Seq<char> { join_nl(doc_lines(root_toks(root), decl_first(root, range))) }
+#[verifier::external_trait_specification]
+pub trait ExSourceDatabase: salsa::Database + salsa::plumbing::HasQueryGroup<ide::db::SourceDatabaseStorage> {
+    type ExternalTraitSpecificationFor: ide::db::SourceDatabase;
+    fn parse(&self, file_id: FileId) -> (r: syntax::Parse) ensures parse_tree(&r) == tree_of(self, file_id);
+}
+#[verifier::external_trait_specification]
+pub trait ExIndexDatabase: salsa::Database + salsa::plumbing::HasQueryGroup<ide::index::IndexDatabaseStorage> + ide::db::SourceDatabase {
+    type ExternalTraitSpecificationFor: ide::index::IndexDatabase;
+    fn index(&self) -> (r: Arc<Index>) ensures idx_sm(&*r) == db_sm(self);
+}
+pub assume_specification [syntax::Parse::syntax_node] (p: &syntax::Parse) -> (n: SyntaxNode) ensures n == parse_tree(p);
+pub assume_specification [Index::symbol_map] (i: &Index) -> (r: &ide::symbol_map::SymbolMap) ensures *r == idx_sm(i);
+}
 }
